@@ -45,6 +45,9 @@ def cases(tier, seed):
         yield {"k": "crc2", "b0": b}
     yield {"k": "crc_random", "seed": rnd.randrange(1 << 30),
            "n": 40 if tier == "quick" else 400}
+    for i in range(4 if tier == "quick" else 60):
+        yield {"k": "crc_inplace", "seed": rnd.randrange(1 << 30),
+               "n": 200 if tier == "quick" else 2000}
     if tier == "thorough":
         for b in range(256):
             yield {"k": "crc3", "b0": b}
@@ -288,6 +291,48 @@ def run_crc(case):
                          "detail": {"input": buf[:64], "right": want,
                                     "accepted_or_rejected_wrongly": [hex(x) for x in
                                                                      wrong_accepted]}})
+    elif k == "crc_inplace":
+        # the documented argument type is bytes | bytearray: one buffer object handed in again
+        # and again, changed in place in between (one byte, one bit, grown, shrunk, restored)
+        rnd = random.Random(case["seed"])
+        calc = repo_crc.Crc16Modbus() if case["seed"] % 2 else _CALC
+        buf = bytearray(rnd.randbytes(rnd.choice([1, 2, 6, 12, 40, 300])))
+        for i in range(case["n"]):
+            what = rnd.randrange(7)
+            if what == 0 and buf:
+                buf[rnd.randrange(len(buf))] ^= 1 << rnd.randrange(8)
+            elif what == 1 and buf:
+                buf[rnd.randrange(len(buf))] = rnd.randrange(256)
+            elif what == 2:
+                buf += rnd.randbytes(rnd.randint(1, 4))
+            elif what == 3 and len(buf) > 2:
+                del buf[rnd.randrange(len(buf))]
+            elif what == 4 and buf:
+                j = rnd.randrange(len(buf))
+                buf[j] ^= 0xFF
+                calc.calculate(buf)
+                buf[j] ^= 0xFF
+            elif what == 5 and len(buf) > 1:
+                buf[0], buf[-1] = buf[-1], buf[0]
+            # what == 6: unchanged, asked again
+            want = R.crc_bytes(bytes(buf))
+            got = calc.calculate(buf)
+            if bytes(got) != want:
+                viol.append({"mechanism": "crc-value-differs-from-modbus",
+                             "detail": {"input": bytes(buf[:64]), "len": len(buf),
+                                        "got": bytes(got), "want": want,
+                                        "buffer_changed_in_place": True, "step": i}})
+                break
+            ok = calc.validate(buf, want)
+            nok = calc.validate(buf, bytes([want[0], want[1] ^ 0x80]))
+            frozen = calc.calculate(bytes(buf))
+            if ok is not True or nok is not False or bytes(frozen) != want:
+                viol.append({"mechanism": "crc-validate-inconsistent",
+                             "detail": {"input": bytes(buf[:64]), "validate_right": ok,
+                                        "validate_wrong": nok, "as_bytes": bytes(frozen),
+                                        "buffer_changed_in_place": True, "step": i}})
+                break
+            n += 1
     elif k == "crc_random":
         rnd = random.Random(case["seed"])
         for i in range(case["n"]):
